@@ -43,7 +43,7 @@ class C07(Prop):
         r = shard_rng(seed, self.id, shard)
         n = 180 if tier == "quick" else 1800
         for i in range(n):
-            lines = [r.choice(FM_LINES) for _ in range(r.randint(0, 8))]
+            lines = [r.choice(FM_LINES) for _ in range(r.randint(0, 8) if r.random() > 0.03 else r.randint(95, 260))]
             lines = [ln for ln in lines if ln.strip() != "---"]
             odd = None
             if lines and r.random() < 0.35:
